@@ -24,9 +24,12 @@ TOL = 1e-9
 OPEN_STATEMENTS = [
     'gate theorems are about the Model matrices (exact, rational points of the unit circle); that cirq.unitary '
     'of the real gate equals the Model matrix is a 1e-9 float comparison (correspondence), not a theorem',
-    'CubicFermionicSimulationGate (general weights: numpy.linalg.eigh), QuarticFermionicSimulationGate._decompose_ '
-    '(numerical matrix square root) and DoubleExcitationGate._decompose_ (pi/8 phases) are covered by the oracle '
-    'exp(-i t G) / decomposition == gate only; no theorem',
+    'CubicFermionicSimulationGate with general weights: proved are generator = JW image of the extracted components and the '
+    'characteristic equation of the 3x3 block (cubic_generator_is_jw, cubic_block_characteristic); the eigenvalues themselves '
+    '(numpy.linalg.eigh, irrational) and hence the unitary are covered by the oracle exp(-i t G) only',
+    'QuarticFermionicSimulationGate._decompose_ (numerical matrix square root of a product of expm) and '
+    'DoubleExcitationGate._decompose_ (Z**(1/8): entries in Q(zeta_16), outside the Gaussian rationals the Model computes with) '
+    'cannot be stated as matrix identities over GQ at rational points; oracle decomposition == gate only',
     'slater_circuit_structure (adjacent qubits, parallel layers) is proved for descriptions drawn from the C11 schedule; that the real '
     'givens_decomposition_square output is such a description is checked on generated matrices (correspondence)',
     'bogoliubov_transform / prepare_* / optimal_givens_decomposition / ffft: the conjugation identity and the prepared '
@@ -491,6 +494,9 @@ def gates_stream(ctx, lad):
                 ok, U = safe(st, 'unitary(Cubic)', case, lambda: cirq.unitary(g))
             if not ok:
                 continue
+            if mode == 'general':
+                cmp_later(case, 'Cubic.qubit_generator_matrix (general weights)', np.asarray(g.qubit_generator_matrix),
+                          model('cubicGenerator', [], [to_gq(w) for w in wts]))
             if mode == 'single' and wk != 0:
                 cmp_later(case, 'Cubic(single weight)', U,
                           model('cubicSingle', [rat(p0[0]), rat(p0[1])], [gqj(*u0)], k))
